@@ -184,9 +184,36 @@ theorem pAllocDelete_path (c : Nat) : Path (G db0) (fun s => s = db0) (pAllocDel
       L.nodup_map_filter _ h0.keys, fun a ha => h0.pos a (List.mem_filter.1 ha).1⟩
 
 /-- a request modelled as one transaction -/
-theorem other_path (cfg : Config) (op : Op R) (hwf : OpWF op) :
-    Path (G db0) (fun s => s = db0) (.txn .other (stepTxn cfg op)) :=
+theorem other_path (cfg : Config) (l : Lbl) (op : Op R) (hwf : OpWF op) :
+    Path (G db0) (fun s => s = db0) (.txn l (stepTxn cfg op)) :=
   write_path _ _ ⟨wfi_step h0 op hwf, _, rfl⟩
+
+/-- PUT /resource_providers/{u}: look-up, then one write transaction -/
+theorem pRpUpdate_path (mv u n : Nat) (p : Option (Option Nat)) :
+    Path (G db0) (fun s => s = db0) (pRpUpdate mv u n p) := by
+  refine read_path h0 _ _ ?_
+  unfold tRpUpdateR
+  split
+  · exact ⟨rfl, .done _ _⟩
+  · split
+    · exact ⟨rfl, .done _ _⟩
+    · refine ⟨rfl, write_path _ _ ?_⟩
+      unfold tRpUpdateW
+      split
+      · next db' e => exact ⟨wfi_updateProvider h0 e, _, rfl⟩
+      · exact ⟨h0, _, rfl⟩
+
+/-- DELETE /resource_providers/{u}: look-up, then one write transaction -/
+theorem pRpDelete_path (u : Nat) : Path (G db0) (fun s => s = db0) (pRpDelete u) := by
+  refine read_path h0 _ _ ?_
+  unfold tRpDeleteR
+  split
+  · exact ⟨rfl, .done _ _⟩
+  · refine ⟨rfl, write_path _ _ ?_⟩
+    unfold tRpDeleteW
+    split
+    · next db' e => exact ⟨wfi_deleteProvider h0 e, _, rfl⟩
+    · exact ⟨h0, _, rfl⟩
 
 /-- **every request program**, started on a state with the bundled invariants, leaves after each of its
 transactions a state with the bundled invariants that is the original one plus auxiliary records only,
@@ -206,28 +233,64 @@ theorem prog_path (cfg : Config) (op : Op R) (hwf : OpWF op) :
   | allocPost mv cs => exact pAllocPost_path h0 cfg mv cs hwf
   | reshape mv invs cs => exact pReshape_path h0 cfg mv invs cs hwf
   | allocDelete c => exact pAllocDelete_path h0 c
-  | rpCreate mv u n p => exact other_path h0 cfg _ hwf
-  | rpUpdate mv u n p => exact other_path h0 cfg _ hwf
-  | rpDelete u => exact other_path h0 cfg _ hwf
-  | traitPut n => exact other_path h0 cfg _ hwf
-  | traitDelete n => exact other_path h0 cfg _ hwf
-  | rcPost n => exact other_path h0 cfg _ hwf
-  | rcPut n => exact other_path h0 cfg _ hwf
-  | rcRename o n => exact other_path h0 cfg _ hwf
-  | rcDelete n => exact other_path h0 cfg _ hwf
+  | rpCreate mv u n p => exact other_path h0 cfg _ _ hwf
+  | rpUpdate mv u n p => exact pRpUpdate_path h0 mv u n p
+  | rpDelete u => exact pRpDelete_path h0 u
+  | traitPut n => exact other_path h0 cfg _ _ hwf
+  | traitDelete n => exact other_path h0 cfg _ _ hwf
+  | rcPost n => exact other_path h0 cfg _ _ hwf
+  | rcPut n => exact other_path h0 cfg _ _ hwf
+  | rcRename o n => exact other_path h0 cfg _ _ hwf
+  | rcDelete n => exact other_path h0 cfg _ _ hwf
 
 end guarded
 
 /-! ### the hierarchy: every transaction, on any state -/
+
+/-- the write transaction of PUT /resource_providers/{u} on ANY state (the look-up may be stale) -/
+theorem pRpUpdate_hinv (mv u n : Nat) (p : Option (Option Nat)) :
+    All (fun s s' : DB R => HInv s → HInv s') (pRpUpdate (R := R) mv u n p) := by
+  refine All.txn' _ _ (fun db => ?_)
+  unfold tRpUpdateR
+  split
+  · exact ⟨id, .done _⟩
+  · split
+    · exact ⟨id, .done _⟩
+    · refine ⟨id, All.txn' _ _ (fun db' => ?_)⟩
+      unfold tRpUpdateW
+      split
+      · next db'' heq =>
+        refine ⟨fun h => ?_, .done _⟩
+        obtain ⟨hi, hf, hr⟩ := updateProvider_inv heq h.ids.rpIds h.forest h.roots
+        obtain ⟨me, -, hc⟩ := Hier.updateProvider_ok heq
+        rcases hc with ⟨_, _, -, -, -, -, rfl⟩ | ⟨-, -, -, rfl⟩ | ⟨-, -, rfl⟩ <;>
+          exact ⟨ids_of_rpIds hi h.ids rfl rfl, hf, hr⟩
+      · exact ⟨id, .done _⟩
+
+/-- the write transaction of DELETE /resource_providers/{u} on ANY state -/
+theorem pRpDelete_hinv (u : Nat) : All (fun s s' : DB R => HInv s → HInv s') (pRpDelete (R := R) u) := by
+  refine All.txn' _ _ (fun db => ?_)
+  unfold tRpDeleteR
+  split
+  · exact ⟨id, .done _⟩
+  · refine ⟨id, All.txn' _ _ (fun db' => ?_)⟩
+    unfold tRpDeleteW
+    split
+    · next db'' heq =>
+      refine ⟨fun h => ?_, .done _⟩
+      obtain ⟨hi, hf, hr⟩ := deleteProvider_inv heq h.ids.rpIds h.forest h.roots
+      obtain ⟨-, -, rfl⟩ := Hier.deleteProvider_ok heq
+      exact ⟨ids_of_rpIds hi h.ids rfl rfl, hf, hr⟩
+    · exact ⟨id, .done _⟩
 
 /-- **every transaction of every request** keeps provider ids unique and the hierarchy a forest with
 correct root pointers, whatever state it runs on -/
 theorem prog_hinv_all (cfg : Config) (op : Op R) :
     All (fun s s' : DB R => HInv s → HInv s') (prog cfg op) := by
   by_cases hop : isProviderOp op = true
-  · have : ∀ op' : Op R, All (fun s s' : DB R => HInv s → HInv s') (.txn .other (stepTxn cfg op')) := fun op' =>
+  · have : ∀ (l : Lbl) (op' : Op R), All (fun s s' : DB R => HInv s → HInv s') (.txn l (stepTxn cfg op')) := fun l op' =>
       All.txn' _ _ (fun db => ⟨fun h => step_hinv cfg h op', .done _⟩)
-    cases op <;> first | exact this _ | simp [isProviderOp] at hop
+    cases op <;> first | exact this _ _ | exact pRpUpdate_hinv _ _ _ _ | exact pRpDelete_hinv _ | simp [isProviderOp] at hop
   · have := prog_evo (N := fun _ => True) cfg op (by simpa using hop) (fun _ _ => trivial)
     exact this.mono (fun s s' h hi => hinv_of_frame hi (h hi.ids).frame)
 
